@@ -1,5 +1,15 @@
 # Per-property claims for MANIFEST.json (executed by gen_manifest.py).
 NA = {}
+NA["C07"] = (
+    "No contract within reach decides this property. It is a whole-image statement that spans HabContainer.load_from_config/export/parse, the BD/YAML "
+    "option parsing, seven segment classes, the CSF command classes and CMS/X.509 signing done inside `cryptography`/OpenSSL: the CMS SignedData "
+    "builder (spsdk/crypto/cms.py) and its verification by an independent implementation are external code that vf cannot bring under contract "
+    "(A-crypto-fun, A-pki), the containers are built from configuration objects and the device database (dict-of-dict YAML data with string keys, "
+    "outside vf's value domain without a model per family), and 'the CMS signature verifies over exactly these blocks' is a statement about that "
+    "external code. The separable arithmetic part (IVT pointers = real positions, block lists cover IVT..application) would need contracts on "
+    "~25 methods of hab_container.py/hab/segments.py/image/segments.py whose state is Python objects with dynamic attributes and bytes built by "
+    "header classes with class-level FORMAT strings; this was not reached in the time available and is not approximated by another technique here. "
+    "A seeded change for it exists (seeded/C07-ivt-csf-pointer-from-padded-size) and is, honestly, NOT detected by anything in /verif.")
 CLAIMED["C20"] = (
     "Every contract clause of the helper functions (align, align_block, extend_block, BinaryPattern.get_block, check_range, "
     "swap16/32, reverse_bytes_in_longs, change_endianness, swap_bytes, get_bytes_cnt_of_int, value_to_int/bool ...) is a named "
@@ -166,3 +176,15 @@ CLAIMED["C12"] = (
     "seeded values (known finding C12-KF1). Templates / YAML schemas / IFR, BCA, FCF, FCB, XMCD, TrustZone, fuses, memcfg are not covered.",
     "Trusted: A-enc, A-smt, A-struct; _RegistersBase.export/parse, BaseConfigArea and the computed-field methods are NOT under contract.",
     "DESIGN.md 7 C12")
+CLAIMED["C08"] = (
+    "SPSDK's own arithmetic in signature serialisation: ECDSASignature.export(NXP) is proved to be the fixed-width big-endian r || s of the curve's "
+    "coordinate size for P-256/384/521 and all r, s (leading zero bytes kept), and the lemma parse(export(r, s, curve)) == (r, s, curve) is "
+    "discharged for all r, s below 2^(8*size) over the real bodies of __init__/parse/get_encoding/get_ecc_curve (inlined). Everything else in the "
+    "property - PEM/DER key round trips, sign/verify soundness, agreement with an independent implementation, rejection of modified "
+    "messages/signatures, DER signature encoding - is a statement about `cryptography`/OpenSSL and hardness assumptions that no contract here "
+    "decides: it is exercised by bounded sweeps only (fresh keys of every type incl. leading-zero coordinates, every encoding x password, "
+    "parameter matrix with independent verification), labelled bounded. Known finding C08-KF1 (DER signature length sniffing).",
+    "Trusted: A-enc, A-smt, A-struct (to_bytes/from_bytes as positional notation; slice of a concatenation at a piece boundary is that piece). "
+    "Not under contract: all key classes, PublicKeyRsa/PublicKeyEcc NXP export + recreate_from_data, serialize_signature, verify_signature, "
+    "SignatureProvider; A-crypto-fun, A-crypto-sec, A-pki.",
+    "DESIGN.md 7 C08")
